@@ -2,13 +2,14 @@
 // One case per line on stdin, one result line on stdout (decimal integers, '|' separates groups).
 //
 //   maxcard <dom>                                    -> maxCardinality of the residue domain (-1: none)
-//   int <hist> <tt> n p1..pn r1..rn a                IntRNSsystem<std::vector,std::allocator>
-//        -> m0..m(n-1) | V | P | a mod p_i ... | ck_k mod p_k (k=1..n-1) | V2
+//   int <hist> <tt> n p1..pn r1..rn na a1..a_na      IntRNSsystem<std::vector,std::allocator>
+//        -> m0..m(n-1) | V | P | a_j mod p_i (all j) | RnsToRing(RingToRns(a_j)) (all j) | ck_k mod p_k (k=1..n-1) | V2 | accessors .. | V3
 //           (V = RnsToRing(r), P = product(), V2 = second RnsToRing on the same object)
-//   rns <hist> <dom> n p1..pn r1..rn a               RNSsystem<Integer, Dom>
-//        -> m0..m(n-1) | V | a mod p_i ... | ck_k (k=1..n-1) | V2
+//   rns <hist> <dom> n p1..pn r1..rn na a1..a_na     RNSsystem<Integer, Dom>
+//        -> m0..m(n-1) | V | a_j mod p_i (all j) | RnsToRing(RingToRns(a_j)) | ck_k (k=1..n-1) | V2 | accessors .. | V3
 //   fixed <hist> <tt> n p1..pn r1..rn                RNSsystemFixed<Integer>, residues in a vector<tt>  -> V
-//   cra <dom> <reduce 1|0> M D A e                   ChineseRemainder<IntegerDom,Dom,reduce>  -> res
+//   cra <dom> <reduce 1|0> M D A e                   ChineseRemainder<IntegerDom,Dom,reduce>  -> res res(copy)   (constructor arguments changed before use)
+//   lift <dom> <atonce|prepared|copies> n p.. r..    incremental lifting x_1..x_n by the functor | RNSsystem::RnsToRing
 //   poly <hist> <dom> p n a1..an r1..rn d c0..cd     Poly1CRT<dom> over GF(p)
 //        -> coefficients of RnsToRing(r) (low degree first, degree-stripped) | evaluations of the polynomial c at a_i
 //           | size points | ck_k as "deg coeffs" for k = 1..n-1 | 1 iff a second RnsToRing gives the same polynomial
@@ -61,32 +62,54 @@ template <class TT> static std::vector<TT> castvec(const IV& v) {
 }
 template <> std::vector<Integer> castvec<Integer>(const IV& v) { return v; }
 
-static IV other_primes(size_t n) {   // a different coprime system of another length, to warm caches with
+static IV other_primes(size_t n) {   // a different coprime system (first n of the table), to warm caches with
     static const int sp[] = {101, 103, 107, 109, 113, 127, 131, 137, 139, 149, 151, 157, 163, 167, 173, 179, 181, 191, 193, 197, 199, 211, 223, 227, 229, 233, 239, 241, 251, 257, 263, 269};
-    IV v; for (size_t i = 0; i < n + 2 && i < 32; ++i) v.push_back(Integer(sp[i])); return v;
+    IV v; for (size_t i = 0; i < n && i < 32; ++i) v.push_back(Integer(sp[i])); return v;
+}
+
+// The constructor argument lives on the heap; right after construction it is overwritten and freed, so an object that kept a
+// reference / shared storage instead of its own copy computes with garbage.
+static IRNS* make_int(const IV& P) {
+    IV* tmp = new IV(P);
+    IRNS* S = new IRNS(*tmp);
+    for (size_t i = 0; i < tmp->size(); ++i) (*tmp)[i] = Integer(1);
+    delete tmp;
+    return S;
+}
+template <class TT> static IRNS* make_int_tt(const IV& P) {
+    std::vector<TT>* tmp = new std::vector<TT>(castvec<TT>(P));
+    IRNS* S = new IRNS(*tmp);
+    for (size_t i = 0; i < tmp->size(); ++i) (*tmp)[i] = TT(1);
+    delete tmp;
+    return S;
 }
 
 template <class TT>
-static std::string run_int(const std::string& hist, const IV& P, const IV& R, const Integer& a) {
+static std::string run_int(const std::string& hist, const IV& P, const IV& R, const IV& As) {
     const size_t n = P.size();
     std::vector<TT> res = castvec<TT>(R);
     IV zeros(n, Integer(0)), ones(n, Integer(1));
     IRNS* S = 0; IRNS* aux = 0; IRNS* aux2 = 0;
     Integer dump;
-    if (hist == "fresh") S = new IRNS(P);
-    else if (hist == "freshtt") { std::vector<TT> pt = castvec<TT>(P); S = new IRNS(pt); }
-    else if (hist == "reuse") { S = new IRNS(P); S->RnsToRing(dump, ones); }
-    else if (hist == "copycold") { aux = new IRNS(P); S = new IRNS(*aux); }
-    else if (hist == "copywarm") { aux = new IRNS(P); aux->RnsToRing(dump, ones); dump = aux->product(); S = new IRNS(*aux); }
-    else if (hist == "copy2") { aux = new IRNS(P); aux->RnsToRing(dump, ones); aux2 = new IRNS(*aux); S = new IRNS(*aux2); }
-    else if (hist == "assigncold") { aux = new IRNS(P); S = new IRNS(); *S = *aux; }
-    else if (hist == "assignwarm") {
-        aux = new IRNS(P); aux->RnsToRing(dump, ones); dump = aux->product();
-        IV O = other_primes(n); S = new IRNS(O); IV oo(O.size(), Integer(1)); S->RnsToRing(dump, oo); dump = S->product();
+    IV O = other_primes(hist == "assignsame" ? n : n + 2); IV oo(O.size(), Integer(1));
+    if (hist == "fresh") S = make_int(P);
+    else if (hist == "freshtt") S = make_int_tt<TT>(P);
+    else if (hist == "reuse") { S = make_int(P); S->RnsToRing(dump, ones); }
+    else if (hist == "copycold") { aux = make_int(P); S = new IRNS(*aux); }
+    else if (hist == "copywarm") { aux = make_int(P); aux->RnsToRing(dump, ones); dump = aux->product(); S = new IRNS(*aux); }
+    else if (hist == "copy2") { aux = make_int(P); aux->RnsToRing(dump, ones); aux2 = new IRNS(*aux); S = new IRNS(*aux2); }
+    else if (hist == "copymod") {      // the source stays alive, is re-assigned to another system and used, after the copy was taken
+        aux = make_int(P); aux->RnsToRing(dump, ones); dump = aux->product(); S = new IRNS(*aux);
+        IRNS* o2 = make_int(O); *aux = *o2; delete o2; aux->RnsToRing(dump, oo); dump = aux->product();
+    }
+    else if (hist == "assigncold") { aux = make_int(P); S = new IRNS(); *S = *aux; }
+    else if (hist == "assignwarm" || hist == "assignsame") {
+        aux = make_int(P); aux->RnsToRing(dump, ones); dump = aux->product();
+        S = make_int(O); S->RnsToRing(dump, oo); dump = S->product();
         *S = *aux;
     }
     else return "BAD-HIST";
-    if (aux && hist != "copy2") { delete aux; aux = 0; }    // the source object is gone before the copy is used
+    if (aux && hist != "copy2" && hist != "copymod") { delete aux; aux = 0; }    // the source object is gone before the copy is used
     std::ostringstream o;
     IRNS::array mix;
     S->RnsToMixedRadix(mix, res);
@@ -94,9 +117,15 @@ static std::string run_int(const std::string& hist, const IV& P, const IV& R, co
     o << "| ";
     Integer V("987654321987654321987654321"); S->RnsToRing(V, res); o << V << " | ";
     o << S->product() << " | ";
-    IRNS::array rr(n + 2, Integer(77)); S->RingToRns(rr, a);        // wrong size on entry: must be resized
-    for (size_t i = 0; i < rr.size(); ++i) o << rr[i] << " ";
-    o << "| ";
+    // RingToRns of every integer of the list, into ONE destination (wrong size on entry: must be resized), then back
+    IRNS::array rr(n + 2, Integer(77));
+    std::ostringstream back;
+    for (size_t j = 0; j < As.size(); ++j) {
+        S->RingToRns(rr, As[j]);
+        for (size_t i = 0; i < rr.size(); ++i) o << rr[i] << " ";
+        Integer W(-7); S->RnsToRing(W, rr); back << W << " ";
+    }
+    o << "| " << back.str() << "| ";
     const IRNS::array& ck = S->Reciprocals();
     for (size_t k = 1; k < ck.size() && k < n; ++k) o << nnmod(ck[k], P[k]) << " ";
     o << "| ";
@@ -118,28 +147,45 @@ static std::string run_int(const std::string& hist, const IV& P, const IV& R, co
 
 // ------------------------------------------------------------------ RNSsystem<Integer, Domain>
 template <class Dom>
-static std::string run_rns(const std::string& hist, const IV& P, const IV& R, const Integer& a) {
+static std::string run_rns(const std::string& hist, const IV& P, const IV& R, const IV& As) {
     typedef RNSsystem<Integer, Dom> RNS;
     typedef typename RNS::domains Domains;
     typedef typename RNS::array Elements;
     const size_t n = P.size();
     Domains D(n); Elements E(n), Ones(n);
     for (size_t i = 0; i < n; ++i) { D[i] = Dom(P[i]); D[i].init(E[i], R[i]); D[i].init(Ones[i], Integer(1)); }
-    IV O = other_primes(n);
+    const bool same = (hist == "setsame" || hist == "setback" || hist == "assignsame");
+    IV O = other_primes(same ? n : n + 2);
     Domains OD(O.size()); Elements OE(O.size());
     for (size_t i = 0; i < O.size(); ++i) { OD[i] = Dom(O[i]); OD[i].init(OE[i], Integer(1)); }
+    // constructor / setPrimes arguments: separate arrays that are overwritten (with the OTHER moduli) right after the call
+    struct Arg {
+        static Domains* make(const IV& Q) { Domains* a = new Domains(Q.size()); for (size_t i = 0; i < Q.size(); ++i) (*a)[i] = Dom(Q[i]); return a; }
+        static void scribble(Domains* a) { for (size_t i = 0; i < a->size(); ++i) (*a)[i] = Dom(Integer(i % 2 ? 5 : 3)); delete a; }
+    };
+    struct Mk {
+        static RNS* mk(const IV& Q) { Domains* a = Arg::make(Q); RNS* S = new RNS(*a); Arg::scribble(a); return S; }
+        static void set(RNS* S, const IV& Q) { Domains* a = Arg::make(Q); S->setPrimes(*a); Arg::scribble(a); }
+    };
     RNS* S = 0; RNS* aux = 0; RNS* aux2 = 0; Integer dump;
-    if (hist == "fresh") S = new RNS(D);
-    else if (hist == "reuse") { S = new RNS(D); S->RnsToRing(dump, Ones); }
-    else if (hist == "copycold") { aux = new RNS(D); S = new RNS(*aux); }
-    else if (hist == "copywarm") { aux = new RNS(D); aux->RnsToRing(dump, Ones); S = new RNS(*aux); }
-    else if (hist == "copy2") { aux = new RNS(D); aux->RnsToRing(dump, Ones); aux2 = new RNS(*aux); S = new RNS(*aux2); }
-    else if (hist == "assigncold") { aux = new RNS(D); S = new RNS(); *S = *aux; }
-    else if (hist == "assignwarm") { aux = new RNS(D); aux->RnsToRing(dump, Ones); S = new RNS(OD); S->RnsToRing(dump, OE); *S = *aux; }
-    else if (hist == "setcold") { S = new RNS(); S->setPrimes(D); }
-    else if (hist == "setwarm") { S = new RNS(OD); S->RnsToRing(dump, OE); S->setPrimes(D); }
+    if (hist == "fresh") S = Mk::mk(P);
+    else if (hist == "reuse") { S = Mk::mk(P); S->RnsToRing(dump, Ones); }
+    else if (hist == "copycold") { aux = Mk::mk(P); S = new RNS(*aux); }
+    else if (hist == "copywarm") { aux = Mk::mk(P); aux->RnsToRing(dump, Ones); S = new RNS(*aux); }
+    else if (hist == "copy2") { aux = Mk::mk(P); aux->RnsToRing(dump, Ones); aux2 = new RNS(*aux); S = new RNS(*aux2); }
+    else if (hist == "copymod") {      // the source stays alive, gets other primes and is used, after the copy was taken
+        aux = Mk::mk(P); aux->RnsToRing(dump, Ones); S = new RNS(*aux);
+        Mk::set(aux, O); aux->RnsToRing(dump, OE);
+    }
+    else if (hist == "assigncold") { aux = Mk::mk(P); S = new RNS(); *S = *aux; }
+    else if (hist == "assignwarm" || hist == "assignsame") { aux = Mk::mk(P); aux->RnsToRing(dump, Ones); S = Mk::mk(O); S->RnsToRing(dump, OE); *S = *aux; }
+    else if (hist == "setcold") { S = new RNS(); Mk::set(S, P); }
+    else if (hist == "setwarm" || hist == "setsame") { S = Mk::mk(O); S->RnsToRing(dump, OE); Mk::set(S, P); }
+    else if (hist == "setback") {      // primes -> use -> other primes of the same length -> use -> primes again
+        S = Mk::mk(P); S->RnsToRing(dump, Ones); Mk::set(S, O); S->RnsToRing(dump, OE); S->Reciprocals(); Mk::set(S, P);
+    }
     else return "BAD-HIST";
-    if (aux && hist != "copy2") { delete aux; aux = 0; }
+    if (aux && hist != "copy2" && hist != "copymod") { delete aux; aux = 0; }
     std::ostringstream o;
     Elements mix;
     S->RnsToMixedRadix(mix, E);
@@ -147,9 +193,14 @@ static std::string run_rns(const std::string& hist, const IV& P, const IV& R, co
     for (size_t i = 0; i < mix.size(); ++i) o << D[i].convert(t, mix[i]) << " ";
     o << "| ";
     Integer V("987654321987654321987654321"); S->RnsToRing(V, E); o << V << " | ";
-    Elements rr(n + 2); S->RingToRns(rr, a);                         // wrong size on entry: must be resized
-    for (size_t i = 0; i < rr.size(); ++i) o << D[i < n ? i : 0].convert(t, rr[i]) << " ";
-    o << "| ";
+    Elements rr(n + 2);                                              // wrong size on entry: must be resized
+    std::ostringstream back;
+    for (size_t j = 0; j < As.size(); ++j) {
+        S->RingToRns(rr, As[j]);
+        for (size_t i = 0; i < rr.size(); ++i) o << D[i < n ? i : 0].convert(t, rr[i]) << " ";
+        Integer W(-7); S->RnsToRing(W, rr); back << W << " ";
+    }
+    o << "| " << back.str() << "| ";
     const Elements& ck = S->Reciprocals();
     for (size_t k = 1; k < ck.size() && k < n; ++k) o << D[k].convert(t, ck[k]) << " ";
     o << "| ";
@@ -169,34 +220,94 @@ static std::string run_rns(const std::string& hist, const IV& P, const IV& R, co
 }
 
 // ------------------------------------------------------------------ RNSsystemFixed<Integer>
+typedef RNSsystemFixed<Integer> FX;
+static FX* make_fixed(const IV& P) {     // constructor argument overwritten and freed right after construction
+    IV* tmp = new IV(P);
+    FX* S = new FX(*tmp);
+    for (size_t i = 0; i < tmp->size(); ++i) (*tmp)[i] = Integer(1);
+    delete tmp;
+    return S;
+}
 template <class TT>
 static std::string run_fixed(const std::string& hist, const IV& P, const IV& R0) {
-    typedef RNSsystemFixed<Integer> FX;
     std::vector<TT> R = castvec<TT>(R0);           // RnsToRing is a template over the residue container
     std::ostringstream o;
     Integer V("987654321987654321987654321"), dump;
-    if (hist == "fresh") { FX S(P); S.RnsToRing(V, R); }
-    else if (hist == "reuse") { FX S(P); IV ones(P.size(), Integer(1)); S.RnsToRing(dump, ones); S.RnsToRing(V, R); }
-    else if (hist == "assignwarm") {
-        FX A(P); IV ones(P.size(), Integer(1)); A.RnsToRing(dump, ones);
-        IV O = other_primes(P.size()); FX S(O); IV oo(O.size(), Integer(1)); S.RnsToRing(dump, oo);
-        S = A; S.RnsToRing(V, R);
+    IV ones(P.size(), Integer(1));
+    IV O = other_primes(hist == "assignsame" ? P.size() : P.size() + 2); IV oo(O.size(), Integer(1));
+    FX* S = 0; FX* A = 0;
+    if (hist == "fresh") S = make_fixed(P);
+    else if (hist == "reuse") { S = make_fixed(P); S->RnsToRing(dump, ones); }
+    else if (hist == "assignwarm" || hist == "assignsame") {
+        A = make_fixed(P); A->RnsToRing(dump, ones);
+        S = make_fixed(O); S->RnsToRing(dump, oo);
+        *S = *A; delete A; A = 0;
     }
-    else if (hist == "assigncold") { FX A(P); FX S; S = A; S.RnsToRing(V, R); }
+    else if (hist == "assigncold") { A = make_fixed(P); S = new FX(); *S = *A; delete A; A = 0; }
     else return "BAD-HIST";
-    o << V;
+    S->RnsToRing(V, R);
+    Integer V2(-3); S->RnsToRing(V2, R);            // a second conversion on the same object
+    o << V << " " << V2;
+    delete S;
     return o.str();
 }
 
 // ------------------------------------------------------------------ ChineseRemainder
+// The functor is built from VARIABLES (M, the domain) that are changed right after construction, applied to a decoy first,
+// copied, and the copy is applied as well: value semantics means none of this may matter.
 template <class Dom, bool RED>
 static std::string run_cra(const Integer& M, const Integer& Dm, const Integer& A, const Integer& e) {
-    IntegerDom ID; Dom D(Dm);
-    typename Dom::Element ee; D.init(ee, e);
-    ChineseRemainder<IntegerDom, Dom, RED> CRA(ID, M, D);
-    Integer res("123456789012345678901234567890");  // destination starts non-zero
-    CRA(res, A, ee);
-    return str(res);
+    typedef ChineseRemainder<IntegerDom, Dom, RED> CRA_t;
+    IntegerDom ID; Dom Dref(Dm);
+    typename Dom::Element ee; Dref.init(ee, e);
+    Integer* Mvar = new Integer(M);
+    Dom* Dvar = new Dom(Dm);
+    CRA_t* CRA = new CRA_t(ID, *Mvar, *Dvar);
+    *Mvar *= Dm; *Mvar += 1;                         // the caller goes on to the next partial product
+    *Dvar = Dom(Integer(3));                          // ... and to another modulus
+    Integer res("123456789012345678901234567890");    // destination starts non-zero
+    typename Dom::Element dec; Dref.init(dec, Integer(1));
+    Integer decoy; (*CRA)(decoy, A + 1, dec);         // an earlier, unrelated application
+    (*CRA)(res, A, ee);
+    CRA_t copy(*CRA);
+    delete CRA; delete Mvar; delete Dvar;
+    Integer res2(-5); copy(res2, A, ee);
+    return str(res) + " " + str(res2);
+}
+
+// incremental lifting over a list of moduli:  x_1 = r_1,  x_{i+1} = lift(x_i, r_{i+1})  with M_i = p_1 ... p_i
+//   mode atonce   : functor i is built when needed and applied at once
+//   mode prepared : all functors are built first (the variable holding the partial product keeps growing), then applied
+//   mode copies   : as prepared, but the functors used are copies and the originals are destroyed first
+template <class Dom>
+static std::string run_lift(const std::string& mode, const IV& P, const IV& R) {
+    typedef ChineseRemainder<IntegerDom, Dom, true> CRA_t;
+    IntegerDom ID;
+    const size_t n = P.size();
+    std::vector<Dom> F; std::vector<typename Dom::Element> E(n);
+    for (size_t i = 0; i < n; ++i) { F.push_back(Dom(P[i])); F[i].init(E[i], R[i]); }
+    std::ostringstream o;
+    Integer x; F[0].convert(x, E[0]);
+    o << x << " ";
+    if (mode == "atonce") {
+        Integer M(P[0]);
+        for (size_t i = 1; i < n; ++i) { CRA_t L(ID, M, F[i]); Integer y(-1); L(y, x, E[i]); x = y; o << x << " "; M *= P[i]; }
+    } else {
+        std::vector<CRA_t*> Ls;
+        Integer M(P[0]);
+        for (size_t i = 1; i < n; ++i) { Ls.push_back(new CRA_t(ID, M, F[i])); M *= P[i]; }
+        if (mode == "copies") for (size_t i = 0; i < Ls.size(); ++i) { CRA_t* c = new CRA_t(*Ls[i]); delete Ls[i]; Ls[i] = c; }
+        M = Integer(1);
+        for (size_t i = 1; i < n; ++i) { Integer y(-1); (*Ls[i - 1])(y, x, E[i]); x = y; o << x << " "; }
+        for (size_t i = 0; i < Ls.size(); ++i) delete Ls[i];
+    }
+    // the same residues through RNSsystem
+    typedef RNSsystem<Integer, Dom> RNS;
+    typename RNS::domains Ds(n); typename RNS::array Es(n);
+    for (size_t i = 0; i < n; ++i) { Ds[i] = F[i]; Es[i] = E[i]; }
+    RNS S(Ds); Integer V; S.RnsToRing(V, Es);
+    o << "| " << V;
+    return o.str();
 }
 
 // ------------------------------------------------------------------ Poly1CRT
@@ -281,7 +392,8 @@ int main() {
                 IV P, R; size_t k = 4;
                 for (size_t i = 0; i < n; ++i) P.push_back(parseI(t[k++]));
                 for (size_t i = 0; i < n; ++i) R.push_back(parseI(t[k++]));
-                Integer a = parseI(t[k++]);
+                size_t na = (size_t)atol(t[k++].c_str());
+                IV a; for (size_t i = 0; i < na; ++i) a.push_back(parseI(t[k++]));
                 if (t[0] == "int") {
                     if (sub == "Integer") out = run_int<Integer>(hist, P, R, a);
                     else if (sub == "int64") out = run_int<int64_t>(hist, P, R, a);
@@ -319,6 +431,17 @@ int main() {
                 else if (dom == "mi64") out = red ? run_cra<Modular<int64_t>, true>(M, D, A, e) : run_cra<Modular<int64_t>, false>(M, D, A, e);
                 else if (dom == "mu64") out = red ? run_cra<Modular<uint64_t>, true>(M, D, A, e) : run_cra<Modular<uint64_t>, false>(M, D, A, e);
                 else if (dom == "mint") out = red ? run_cra<Modular<Integer>, true>(M, D, A, e) : run_cra<Modular<Integer>, false>(M, D, A, e);
+                else out = "BAD-DOM";
+            } else if (t[0] == "lift") {
+                const std::string dom = t[1], mode = t[2];
+                size_t n = (size_t)atol(t[3].c_str());
+                IV P, R; size_t k = 4;
+                for (size_t i = 0; i < n; ++i) P.push_back(parseI(t[k++]));
+                for (size_t i = 0; i < n; ++i) R.push_back(parseI(t[k++]));
+                if (dom == "mdouble") out = run_lift<Modular<double> >(mode, P, R);
+                else if (dom == "mi64") out = run_lift<Modular<int64_t> >(mode, P, R);
+                else if (dom == "mu64") out = run_lift<Modular<uint64_t> >(mode, P, R);
+                else if (dom == "mint") out = run_lift<Modular<Integer> >(mode, P, R);
                 else out = "BAD-DOM";
             } else if (t[0] == "poly") {
                 const std::string hist = t[1], sub = t[2];
